@@ -1500,14 +1500,15 @@ def m_map_entry(ctx):
     ex, st = ctx.ex, ctx.st
     m = shaped(ex, st, ctx.args[0], 'map')
     key = ctx.args[1]
+    ety = 'BTreeEntry' if 'BTreeMap' in ctx.callee else 'Entry'      # std::collections::btree_map::Entry declares Vacant first, hash_map / indexmap Occupied first
 
     def occ(s2, idx):
-        e = Obj('Entry', kind='entry'); e.discr = 'Occupied'; e.attrs['map'] = s2.tr(m); e.attrs['idx'] = idx; e.attrs['key'] = s2.tr(key)
+        e = Obj(ety, kind='entry'); e.discr = 'Occupied'; e.attrs['map'] = s2.tr(m); e.attrs['idx'] = idx; e.attrs['key'] = s2.tr(key)
         i = Obj('OccupiedEntry', kind='entry'); i.discr = 'Occupied'; i.attrs = dict(e.attrs); e.fields[('Occupied', 0)] = i
         return e
 
     def vac(s2):
-        e = Obj('Entry', kind='entry'); e.discr = 'Vacant'; e.attrs['map'] = s2.tr(m); e.attrs['idx'] = None; e.attrs['key'] = s2.tr(key)
+        e = Obj(ety, kind='entry'); e.discr = 'Vacant'; e.attrs['map'] = s2.tr(m); e.attrs['idx'] = None; e.attrs['key'] = s2.tr(key)
         i = Obj('VacantEntry', kind='entry'); i.discr = 'Vacant'; i.attrs = dict(e.attrs); e.fields[('Vacant', 0)] = i
         return e
     return map_lookup_alts(ex, st, m, key, occ, vac)
@@ -1693,3 +1694,37 @@ def m_box_assume_init_into_vec(ctx):
     if not isinstance(arr, Obj) or 'items' not in arr.attrs:
         raise MirError(f'box contents are not an array: {arr!r}')
     return [(None, new_vec(ctx.ret_ty, list(arr.attrs['items'])))]
+
+
+@model(r'^(std|core)::cmp::(max|min)::<(u8|u16|u32|u64|u128|usize|i8|i16|i32|i64|i128|isize)>$')
+def m_cmp_max_min(ctx):
+    op, ty = re.search(r'cmp::(max|min)::<(\w+)>$', ctx.callee).groups()
+    a, b = (ctx.ex.deref_val(ctx.st, x) for x in ctx.args[:2])
+    signed = ty.startswith('i')
+    gt = (a > b) if signed else z3.UGT(a, b)
+    return [(None, z3.If(gt, a, b) if op == 'max' else z3.If(gt, b, a))]
+
+
+@model(r'^<(std::option::|core::option::)?Option<(u8|u16|u32|u64|u128|usize|i8|i16|i32|i64|i128|isize)> as (std::cmp::|core::cmp::)?PartialOrd>::(lt|le|gt|ge)$')
+def m_option_int_cmp(ctx):
+    """derived ordering on Option<int>: None < Some(_), Some(a) vs Some(b) by value"""
+    ex, st = ctx.ex, ctx.st
+    ty, op = re.search(r'Option<(\w+)> as .*PartialOrd>::(\w+)$', ctx.callee).groups()
+    signed = ty.startswith('i')
+
+    def parts(v):
+        o = ex.deref_val(st, v)
+        if not isinstance(o, Obj):
+            raise MirError(f'Option comparison on {o!r}')
+        if isinstance(o.discr, str):
+            pres = z3.BoolVal(o.discr == 'Some')
+        else:
+            pres = ex.discr_value(st, o) == 1
+        val = ex.deref_val(st, o.fields[('Some', 0)]) if ('Some', 0) in o.fields else z3.BitVecVal(0, INT_TY[ty])
+        return pres, val
+    (pa, va), (pb, vb) = parts(ctx.args[0]), parts(ctx.args[1])
+    lt = (va < vb) if signed else z3.ULT(va, vb)
+    a_lt_b = z3.Or(z3.And(z3.Not(pa), pb), z3.And(pa, pb, lt))
+    eq = z3.Or(z3.And(z3.Not(pa), z3.Not(pb)), z3.And(pa, pb, va == vb))
+    r = {'lt': a_lt_b, 'le': z3.Or(a_lt_b, eq), 'gt': z3.Not(z3.Or(a_lt_b, eq)), 'ge': z3.Not(a_lt_b)}[op]
+    return [(None, r)]
